@@ -35,6 +35,12 @@ pub struct IncCase {
     pub extra_invocations: u8,
     /// C03 mode: only edits that leave every declared resource unchanged.
     pub neutral_only: bool,
+    /// The producer is also listed under `dependencies` (both reference kinds on one edge).
+    #[serde(default)]
+    pub also_dependency: bool,
+    /// A second producer (in the root project) with the same output command text.
+    #[serde(default)]
+    pub second_producer: bool,
 }
 
 pub fn inc_case(neutral_only: bool) -> impl Strategy<Value = IncCase> {
@@ -43,10 +49,10 @@ pub fn inc_case(neutral_only: bool) -> impl Strategy<Value = IncCase> {
         (0u8..14, any::<bool>(), any::<bool>()),
         tree_spec(10, true),
         prop::collection::vec((0u8..20, any::<u8>()), if neutral_only { 0..=4 } else { 1..=6 }),
-        0u8..3,
+        (0u8..3, any::<bool>(), any::<bool>()),
     )
         .prop_map(
-            move |((layout, src_ext, second_files, own_cmd, out_paths, out_cmd), (prod_paths_ext, prod_paths, prod_cmd), tree, edits, extra_invocations)| {
+            move |((layout, src_ext, second_files, own_cmd, out_paths, out_cmd), (prod_paths_ext, prod_paths, prod_cmd), tree, edits, (extra_invocations, also_dependency, second_producer))| {
                 // links are excluded here (the model must be exact): keep files and dirs
                 let tree = TreeSpec {
                     entries: tree
@@ -74,6 +80,8 @@ pub fn inc_case(neutral_only: bool) -> impl Strategy<Value = IncCase> {
                     edits,
                     extra_invocations,
                     neutral_only,
+                    also_dependency: also_dependency && layout > 0,
+                    second_producer: second_producer && layout >= 2,
                 }
             },
         )
@@ -188,9 +196,17 @@ fn declare(case: &IncCase, sb: &Sandbox) -> (Value, Option<Value>) {
         1 => Some("p".to_string()),
         _ => Some("sub::p".to_string()),
     };
+    if case.second_producer {
+        // listed before the imported producer: same command text, other directory
+        input.push(json!("p2.output"));
+    }
     if let Some(p) = &pref {
         input.push(json!(format!("{}.output", p)));
     }
+    let consumer_deps: Vec<String> = match (&pref, case.also_dependency) {
+        (Some(p), true) => vec![p.clone()],
+        _ => vec![],
+    };
     let mut output: Vec<Value> = vec![];
     if case.out_paths {
         output.push(json!({"paths": ["out"]}));
@@ -198,7 +214,8 @@ fn declare(case: &IncCase, sb: &Sandbox) -> (Value, Option<Value>) {
     if case.out_cmd {
         output.push(json!({"cmd_stdout": "cat o.txt"}));
     }
-    let consumer = json!({"build": ":", "input": input, "output": output});
+    let consumer = json!({"dependencies": consumer_deps, "build": ":", "input": input, "output": output});
+    let p2 = json!({"build": ":", "output": [{"cmd_stdout": "cat v.txt"}, {"paths": ["gen2"]}]});
     // producer
     let mut pout: Vec<Value> = vec![];
     if case.prod_paths {
@@ -222,11 +239,19 @@ fn declare(case: &IncCase, sb: &Sandbox) -> (Value, Option<Value>) {
         0 => (json!({"targets": {"c": consumer}}), None),
         1 => (json!({"targets": {"c": consumer, "p": producer}}), None),
         2 => (
-            json!({"imports": {"sub": "sub"}, "targets": {"c": consumer}}),
+            if case.second_producer {
+                json!({"imports": {"sub": "sub"}, "targets": {"c": consumer, "p2": p2}})
+            } else {
+                json!({"imports": {"sub": "sub"}, "targets": {"c": consumer}})
+            },
             Some(json!({"name": "sub", "targets": {"p": producer}})),
         ),
         _ => (
-            json!({"imports": {"sub": "sub"}, "targets": {"c": consumer}}),
+            if case.second_producer {
+                json!({"imports": {"sub": "sub"}, "targets": {"c": consumer, "p2": p2}})
+            } else {
+                json!({"imports": {"sub": "sub"}, "targets": {"c": consumer}})
+            },
             Some(json!({"name": "sub", "targets": {"p": producer, "q": {"build": ":", "output": [{"paths": ["qgen"]}]}}})),
         ),
     }
@@ -280,6 +305,11 @@ pub fn build_world(case: &IncCase, tag: &str) -> Result<World, String> {
         input.push(MRes::Cmd(canon.clone(), "cat v.txt".into()));
     }
     let mut inherited = vec![];
+    if case.second_producer {
+        sb.write("proj/gen2/g.txt", b"second producer output\n");
+        inherited.push(MRes::Files(vec![canon.join("gen2")], None));
+        inherited.push(MRes::Cmd(canon.clone(), "cat v.txt".into()));
+    }
     if let Some(pd) = &prod_dir {
         if case.prod_paths {
             inherited.push(MRes::Files(
